@@ -25,7 +25,9 @@ PROP_MODULES = {
     "C08": ["c08"],
     "C07": ["c07"],
     "C04": ["c04"],
-    "C01": ["c01"],
+    "C01": ["c01", "c03"],
+    "C03": ["c03"],
+    "C10": ["c01", "c03", "c10"],
 }
 
 
@@ -142,7 +144,9 @@ class PropertyRun:
         _load_modules(self.prop)
         from .registry import UNITS
 
-        units = [d for d in UNITS.values() if d.prop == self.prop and (self.tier == "thorough" or d.tier == "quick")]
+        units = [d for d in UNITS.values()
+                 if (d.prop == self.prop or (self.prop in getattr(d, "also", ()) and d.expect != "canary"))
+                 and (self.tier == "thorough" or d.tier == "quick")]
         if only:
             units = [d for d in units if any(o in d.name for o in only)]
         agg = {d.name: {"decl": d, "paths": [], "errors": [], "infos": {}, "assumed": set(), "secs": 0.0,
